@@ -33,6 +33,8 @@ pub struct ForgeCtx {
     /// the same writer key, but one block shorter (genuine signature for another length)
     pub shorter_writer: Option<Core>,
     pub foreign_node: hypercore::Node,
+    /// the writer's genuine signatures for every earlier length of its history: (length, signature)
+    pub earlier_signatures: Vec<(u64, Vec<u8>)>,
 }
 
 pub fn build_forge_ctx(whist: &[Op]) -> ForgeCtx {
@@ -58,7 +60,30 @@ pub fn build_forge_ctx(whist: &[Op]) -> ForgeCtx {
     } else {
         None
     };
+    // genuine signatures of every intermediate length (same key): replaying one of them - in
+    // particular the one the replica already holds - on a proof for another length is a forgery
+    let mut earlier_signatures = vec![];
+    {
+        let mut gw = Core::create(key_pair(KEY_SEED), CacheCfg::Off);
+        let mut gm = ListModel::new();
+        for op in whist {
+            let n = gm.len();
+            exec_writer(&mut gw, op, n);
+            gm.apply(op);
+            let l = gm.len();
+            if l > 0 && gw.core.is_some() {
+                if let Out::Ok(Some(p)) = create_proof(gw.c(), &ConcreteReq { block: None, hash: None, seek: None, upgrade: Some(hypercore::RequestUpgrade { start: 0, length: l }) }) {
+                    if let Some(u) = p.upgrade {
+                        if earlier_signatures.last().map(|(x, _): &(u64, Vec<u8>)| *x != l).unwrap_or(true) {
+                            earlier_signatures.push((l, u.signature));
+                        }
+                    }
+                }
+            }
+        }
+    }
     ForgeCtx {
+        earlier_signatures,
         other_writer: ow,
         other_key: okp.secret.unwrap(),
         shorter_writer: shorter,
@@ -118,6 +143,17 @@ fn forgeries(w: &Writer, fc: &mut ForgeCtx, creq: &ConcreteReq, proof: &Proof) -
         let rh = ft.root_hash(wl);
         if let Some(p2) = alter::resign_with_other_key(&p, &fc.other_key, &rh, wl) {
             out.push(Alt { class: "forge.substituted-block-other-key".into(), desc: "block value replaced, tree recomputed, signed by another key".into(), proof: p2, must_refuse: true });
+        }
+    }
+    // (c') replay of a genuine signature for another length of the same writer (including the
+    // one a replica at that length already holds)
+    if proof.upgrade.is_some() {
+        for (l, sig) in &fc.earlier_signatures {
+            if *l != wl {
+                let mut p = proof.clone();
+                p.upgrade.as_mut().unwrap().signature = sig.clone();
+                out.push(Alt { class: "forge.replayed-signature".into(), desc: format!("writer's genuine signature for length {l} replayed on a proof for length {wl}"), proof: p, must_refuse: true });
+            }
         }
     }
     // (c) the writer's genuine signature for a different length
@@ -398,6 +434,20 @@ pub fn run(tier: &str) -> i32 {
         let r = c03::saturate("C04", whist, vec![c03::empty_replica()], Seeks::None, true, false, &tmp, &stats, &g);
         nstates += r.kept.len();
         sweep(whist, &r.kept, *bits, *seeks, None, &rep, &stats, &classes);
+        // growth: the writer appends k more blocks; every earlier replica state (which holds the
+        // old head and its signature) receives the altered / forged proofs of the longer writer
+        let wn = c03::build_writer(whist).model.len();
+        if wn >= 1 && wn <= if quick { 3 } else { 5 } && whist.iter().all(|o| matches!(o, Op::Append(_))) {
+            for k in [1u64, 2] {
+                let mut h2 = whist.clone();
+                for i in 0..k {
+                    h2.push(Op::Append(Blk::P(((wn + i + 1) % 4) as u32, 3)));
+                }
+                let upgraded: Vec<(Image, ReplicaModel)> = r.kept.iter().filter(|(_, m)| m.len == wn).cloned().collect();
+                nstates += upgraded.len();
+                sweep(&h2, &upgraded, Bits::Few, Seeks::None, None, &rep, &stats, &classes);
+            }
+        }
         shape_json.push(json!({"writer": hist_brief(whist), "bits": format!("{bits:?}"), "seek_proofs": format!("{seeks:?}"),
             "replica_states": r.kept.len(), "secs": t.elapsed().as_secs_f64()}));
     }
